@@ -166,12 +166,6 @@ theorem rpow_half_sq {x : ℝ} (hx : 0 ≤ x) : (x ^ (1 / 2 : ℝ)) ^ 2 = x := b
 theorem rpow_neg_half_sq {x : ℝ} (hx : 0 ≤ x) : (x ^ (-(1 / 2) : ℝ)) ^ 2 = x⁻¹ := by
   rw [← Real.rpow_natCast, ← Real.rpow_mul hx]; norm_num [Real.rpow_neg_one]
 
-theorem combinedA_eq : (combinedA : ℝ) = 13287185866393594 / 10 ^ 11 := by
-  simp only [combinedA, NumReal.dec_eq]; norm_num
-
-theorem combinedB_eq : (combinedB : ℝ) = 15903203868740343 / 10 ^ 6 := by
-  simp only [combinedB, NumReal.dec_eq]; norm_num
-
 theorem half_lit : ((5 : ℤ) : ℝ) / 10 ^ 1 = 1 / 2 := by norm_num
 
 /-- the argument shape common to both paths of `A` -/
@@ -276,8 +270,8 @@ theorem constVacuumPermittivity_pos : (0 : ℝ) < constVacuumPermittivity := by
   simp only [constVacuumPermittivity, NumReal.frac_eq]; norm_num
 theorem constBoltzmann_pos : (0 : ℝ) < constBoltzmann := by simp only [constBoltzmann, NumReal.frac_eq]; norm_num
 theorem constMolarGas_pos : (0 : ℝ) < constMolarGas := by simp only [constMolarGas, NumReal.frac_eq]; norm_num
-theorem combinedA_pos : (0 : ℝ) < combinedA := by rw [combinedA_eq]; norm_num
-theorem combinedB_pos : (0 : ℝ) < combinedB := by rw [combinedB_eq]; norm_num
+theorem combinedA_pos : (0 : ℝ) < combinedA := by simp only [combinedA, NumReal.dec_eq]; norm_num
+theorem combinedB_pos : (0 : ℝ) < combinedB := by simp only [combinedB, NumReal.dec_eq]; norm_num
 
 theorem constA_pos {F NA eps0 kB pi : ℝ} (hF : 0 < F) (hNA : 0 < NA) (h0 : 0 < eps0) (hk : 0 < kB) (hp : 0 < pi) :
     0 < constA F NA eps0 kB pi := by
